@@ -176,6 +176,14 @@ def execute(sc):
         start = len(res.rec.events)
         res.rec.add('cmd', 'connection all')
         ctl.process_command('connection all')
+        # a label typed as a matcher means the same whatever filter / breakpoint happens to be in force
+        pre = random.Random(cfg['harvest_seed'] + 1).choice([None, 'filter wl_callback', 'filter ! wl_display', 'breakpoint .sync',
+                                                             'filter .delete_id, wl_registry ! .bind'])
+        if pre:
+            ctl.process_command(pre)
+            if random.Random(cfg['harvest_seed'] + 2).random() < 0.6:
+                ctl.process_command('breakpoint ! .done')
+                ctl.process_command('breakpoint .sync')
         for text, m in queries:
             res.rec.add('cmd', text)
             ctl.process_command(text)
@@ -191,6 +199,31 @@ def execute(sc):
             trigger_is_conn[0] = m['alts'][0]['obj'] is None
             S.judge_list(seg, {'t': 'list', 'm': m, 'cap': None}, fstate, None, recorded, names, t0, V, rep, list(names.values()))
             V.bump('queries_conn' if trigger_is_conn[0] else 'queries_label')
+        # labels typed into an *accumulating* command: `filter !`, `filter .<name>`, `filter X: <label>`, then `list` with no
+        # argument must show exactly what the accumulated filter (name alternative OR label) selects
+        if not V.list:
+            import random as _r
+            r2 = _r.Random(cfg['harvest_seed'] + 3)
+            msgnames = sorted({c.name for c in recorded})
+            for (cn, id_, gen) in labels[:4]:
+                nm = r2.choice(msgnames) if msgnames else 'sync'
+                lab = {'conn': cn, 'bare': True, 'obj': ['idgen', id_, W.unletters(gen)], 'name': None, 'args': None}
+                pat = {'conn': None, 'bare': False, 'obj': None, 'name': nm, 'args': None}
+                fs = S.MState('star')
+                cmds = [('filter !', {'kind': 'bang'}), ('filter .%s' % nm, {'kind': 'list', 'alts': [pat], 'excl': []}),
+                        ('filter %s: %d%s' % (cn, id_, gen), {'kind': 'list', 'alts': [lab], 'excl': []})]
+                for text, m in cmds:
+                    ctl.process_command(text)
+                    fs.apply(m)
+                mark = res.rec.add('cmd', 'list')
+                ctl.process_command('list')
+                seg = [x for x in S.segments(res.rec) if x.kind == 'cmd' and x.seq == mark][0]
+                trigger_is_conn[0] = False
+                S.judge_list(seg, {'t': 'list', 'm': None, 'cap': None}, fs, None, recorded, names, t0, V, rep, list(names.values()))
+                V.bump('queries_label_through_accumulating_filter')
+                if V.list:
+                    V.list[-1]['detail'] = 'after %r: %s' % ([c[0] for c in cmds], V.list[-1]['detail'])
+                    break
     maxgen = max([len(l) for c in st.world.conns for l in c.table.values()] or [0])
     if maxgen > 26:
         V.bump('probe_label_two_letters')
